@@ -42,12 +42,12 @@ theorem decOpt_spec (c : Bool) (enc : Nat → Bytes) (dec : Bytes → Option (Na
 theorem decMfhd'_encMfhd (x : Mfhd) (rest : Bytes) (h : x.Wf) :
     decMfhd' (encMfhd x ++ rest) = some (x, rest) := by
   obtain ⟨h1, h2, h3⟩ := h
-  simp [decMfhd', encMfhd, List.append_assoc, decU8_encU8 _ _ h1, decU24_encU24 _ _ h2,
-    decU32_encU32 _ _ h3]
+  simp only [decMfhd', encMfhd, List.append_assoc, decU8_encU8 _ _ h1, decU24_encU24 _ _ h2,
+    decU32_encU32 _ _ h3, andThen_some]
 
 theorem decMfhd'_spec {bs : Bytes} {x : Mfhd} {rest : Bytes} (h : decMfhd' bs = some (x, rest)) :
     x.Wf ∧ encMfhd x ++ rest = bs := by
-  simp only [decMfhd', Option.bind_eq_bind, Option.bind_eq_some_iff, Prod.exists] at h
+  simp only [decMfhd', andThen_eq_some_iff] at h
   obtain ⟨v, b1, h1, f, b2, h2, s, b3, h3, h4⟩ := h
   simp only [Option.some.injEq, Prod.mk.injEq] at h4
   obtain ⟨rfl, rfl⟩ := h4
@@ -90,12 +90,12 @@ theorem encW_length (w : Bool) (v : Nat) : (encW w v).length = if w then 8 else 
 theorem decTfdt'_encTfdt (x : Tfdt) (rest : Bytes) (h : x.Wf) :
     decTfdt' (encTfdt x ++ rest) = some (x, rest) := by
   obtain ⟨h1, h2, h3⟩ := h
-  simp [decTfdt', encTfdt, List.append_assoc, decU8_encU8 _ _ h1, decU24_encU24 _ _ h2,
-    decW_encW _ _ _ h3]
+  simp only [decTfdt', encTfdt, List.append_assoc, decU8_encU8 _ _ h1, decU24_encU24 _ _ h2,
+    decW_encW _ _ _ h3, andThen_some]
 
 theorem decTfdt'_spec {bs : Bytes} {x : Tfdt} {rest : Bytes} (h : decTfdt' bs = some (x, rest)) :
     x.Wf ∧ encTfdt x ++ rest = bs := by
-  simp only [decTfdt', Option.bind_eq_bind, Option.bind_eq_some_iff, Prod.exists] at h
+  simp only [decTfdt', andThen_eq_some_iff] at h
   obtain ⟨v, b1, h1, f, b2, h2, t, b3, h3, h4⟩ := h
   simp only [Option.some.injEq, Prod.mk.injEq] at h4
   obtain ⟨rfl, rfl⟩ := h4
@@ -120,12 +120,12 @@ theorem encTfdt_length (x : Tfdt) :
 theorem decMehd'_encMehd (x : Mehd) (rest : Bytes) (h : x.Wf) :
     decMehd' (encMehd x ++ rest) = some (x, rest) := by
   obtain ⟨h1, h2, h3⟩ := h
-  simp [decMehd', encMehd, List.append_assoc, decU8_encU8 _ _ h1, decU24_encU24 _ _ h2,
-    decW_encW _ _ _ h3]
+  simp only [decMehd', encMehd, List.append_assoc, decU8_encU8 _ _ h1, decU24_encU24 _ _ h2,
+    decW_encW _ _ _ h3, andThen_some]
 
 theorem decMehd'_spec {bs : Bytes} {x : Mehd} {rest : Bytes} (h : decMehd' bs = some (x, rest)) :
     x.Wf ∧ encMehd x ++ rest = bs := by
-  simp only [decMehd', Option.bind_eq_bind, Option.bind_eq_some_iff, Prod.exists] at h
+  simp only [decMehd', andThen_eq_some_iff] at h
   obtain ⟨v, b1, h1, f, b2, h2, t, b3, h3, h4⟩ := h
   simp only [Option.some.injEq, Prod.mk.injEq] at h4
   obtain ⟨rfl, rfl⟩ := h4
@@ -145,13 +145,13 @@ theorem encMehd_decMehd {bs : Bytes} {x : Mehd} (h : decMehd bs = some x) :
 theorem decTrex'_encTrex (x : Trex) (rest : Bytes) (h : x.Wf) :
     decTrex' (encTrex x ++ rest) = some (x, rest) := by
   obtain ⟨h1, h2, h3, h4, h5, h6, h7⟩ := h
-  simp [decTrex', encTrex, List.append_assoc, decU8_encU8 _ _ h1, decU24_encU24 _ _ h2,
+  simp only [decTrex', encTrex, List.append_assoc, decU8_encU8 _ _ h1, decU24_encU24 _ _ h2,
     decU32_encU32 _ _ h3, decU32_encU32 _ _ h4, decU32_encU32 _ _ h5, decU32_encU32 _ _ h6,
-    decU32_encU32 _ _ h7]
+    decU32_encU32 _ _ h7, andThen_some]
 
 theorem decTrex'_spec {bs : Bytes} {x : Trex} {rest : Bytes} (h : decTrex' bs = some (x, rest)) :
     x.Wf ∧ encTrex x ++ rest = bs := by
-  simp only [decTrex', Option.bind_eq_bind, Option.bind_eq_some_iff, Prod.exists] at h
+  simp only [decTrex', andThen_eq_some_iff] at h
   obtain ⟨v, b1, h1, f, b2, h2, a, b3, h3, b, b4, h4, c, b5, h5, d, b6, h6, e, b7, h7, h8⟩ := h
   simp only [Option.some.injEq, Prod.mk.injEq] at h8
   obtain ⟨rfl, rfl⟩ := h8
@@ -172,12 +172,12 @@ theorem encTrex_decTrex {bs : Bytes} {x : Trex} (h : decTrex bs = some x) :
 theorem decTenc'_encTenc (x : Tenc) (rest : Bytes) (h : x.Wf) :
     decTenc' (encTenc x ++ rest) = some (x, rest) := by
   obtain ⟨h1, h2, h3, h4, h5⟩ := h
-  simp [decTenc', encTenc, List.append_assoc, decU8_encU8 _ _ h1, decU24_encU24 _ _ h2,
-    decU24_encU24 _ _ h3, decU8_encU8 _ _ h4, takeN_append' 16 _ _ h5]
+  simp only [decTenc', encTenc, List.append_assoc, decU8_encU8 _ _ h1, decU24_encU24 _ _ h2,
+    decU24_encU24 _ _ h3, decU8_encU8 _ _ h4, takeN_append' 16 _ _ h5, andThen_some]
 
 theorem decTenc'_spec {bs : Bytes} {x : Tenc} {rest : Bytes} (h : decTenc' bs = some (x, rest)) :
     x.Wf ∧ encTenc x ++ rest = bs := by
-  simp only [decTenc', Option.bind_eq_bind, Option.bind_eq_some_iff, Prod.exists] at h
+  simp only [decTenc', andThen_eq_some_iff] at h
   obtain ⟨v, b1, h1, f, b2, h2, a, b3, h3, b, b4, h4, k, b5, h5, h6⟩ := h
   simp only [Option.some.injEq, Prod.mk.injEq] at h6
   obtain ⟨rfl, rfl⟩ := h6
@@ -198,39 +198,59 @@ theorem encMany_id_length (l : List Bytes) (h : ∀ b ∈ l, b.length = 4) :
     (encMany id l).length = 4 * l.length :=
   encMany_length_const id 4 l h
 
+theorem decBrands_encMany (l : List Bytes) (h : ∀ b ∈ l, b.length = 4) :
+    decBrands (encMany id l) = some l := by
+  have hl := encMany_id_length l h
+  have hm : decMany (takeN 4) l.length (encMany id l ++ []) = some (l, []) :=
+    decMany_encMany id (takeN 4) _ [] (fun a ha r => takeN_append' 4 a r (h a ha))
+  rw [List.append_nil] at hm
+  have h1 : 4 * l.length % 4 = 0 := by omega
+  have h2 : 4 * l.length / 4 = l.length := by omega
+  unfold decBrands
+  rw [hl, h1, h2, hm]
+  simp
+
+theorem decBrands_spec {bs : Bytes} {l : List Bytes} (h : decBrands bs = some l) :
+    (∀ b ∈ l, b.length = 4) ∧ encMany id l = bs := by
+  unfold decBrands at h
+  split at h
+  · simp at h
+  · rename_i hmod
+    cases hm : decMany (takeN 4) (bs.length / 4) bs with
+    | none => simp [hm] at h
+    | some p =>
+      obtain ⟨brands, r⟩ := p
+      simp only [hm, Option.some.injEq] at h
+      subst h
+      obtain ⟨hlen, hP, henc⟩ := decMany_spec (α := Bytes) id (takeN 4) (fun b => b.length = 4)
+        (fun bs a r h => by simpa using takeN_spec h) hm
+      have hr : r = [] := by
+        have h5 := congrArg List.length henc
+        simp only [List.length_append, encMany_id_length brands hP, hlen] at h5
+        have : r.length = 0 := by omega
+        exact List.length_eq_zero_iff.mp this
+      subst hr
+      rw [List.append_nil] at henc
+      exact ⟨hP, henc⟩
+
 theorem decFtyp_encFtyp (x : Ftyp) (h : x.Wf) : decFtyp (encFtyp x) = some x := by
   obtain ⟨h1, h2, h3⟩ := h
-  have hl := encMany_id_length x.compatible_brands h3
-  have hm : decMany (takeN 4) x.compatible_brands.length (encMany id x.compatible_brands ++ [])
-      = some (x.compatible_brands, []) :=
-    decMany_encMany id (takeN 4) _ [] (fun a ha r => takeN_append' 4 a r (h3 a ha))
-  rw [List.append_nil] at hm
-  simp only [decFtyp, encFtyp, Option.bind_eq_bind, takeN_append' 4 _ _ h1, decU32_encU32 _ _ h2,
-    Option.bind_some, hl]
-  have : 4 * x.compatible_brands.length % 4 = 0 := by omega
-  have h4 : 4 * x.compatible_brands.length / 4 = x.compatible_brands.length := by omega
-  simp [this, h4, hm]
+  simp only [decFtyp, encFtyp, takeN_append' 4 _ _ h1, decU32_encU32 _ _ h2, andThen_some,
+    decBrands_encMany _ h3]
 
 theorem encFtyp_decFtyp {bs : Bytes} {x : Ftyp} (h : decFtyp bs = some x) :
     x.Wf ∧ encFtyp x = bs := by
-  simp only [decFtyp, Option.bind_eq_bind, Option.bind_eq_some_iff, Prod.exists] at h
+  simp only [decFtyp, andThen_eq_some_iff] at h
   obtain ⟨mj, b1, h1, mn, b2, h2, h3⟩ := h
-  split at h3
-  · simp at h3
-  · simp only [Option.bind_eq_some_iff, Prod.exists, Option.some.injEq] at h3
-    obtain ⟨brands, r, h4, rfl⟩ := h3
+  cases hb : decBrands b2 with
+  | none => simp [hb] at h3
+  | some brands =>
+    simp only [hb, Option.some.injEq] at h3
+    subst h3
     obtain ⟨hk, hk'⟩ := takeN_spec h1
-    obtain ⟨hlen, hP, henc⟩ := decMany_spec (α := Bytes) id (takeN 4) (fun b => b.length = 4)
-      (fun bs a r h => by simpa using takeN_spec h) h4
-    have hr : r = [] := by
-      have h5 := congrArg List.length henc
-      simp only [List.length_append, encMany_id_length brands hP, hlen] at h5
-      have : r.length = 0 := by omega
-      exact List.length_eq_zero_iff.mp this
-    subst hr
+    obtain ⟨hP, henc⟩ := decBrands_spec hb
     refine ⟨⟨hk, decU32_range h2, hP⟩, ?_⟩
     simp only [encFtyp]
-    rw [List.append_nil] at henc
     rw [henc, encU32_decU32 h2, hk']
 
 /-! ### the tfdt version switch (mp4.py:2203-2212) -/
